@@ -13,7 +13,9 @@ package accumulation
 import (
 	"crypto/sha256"
 	"encoding/binary"
+	"encoding/json"
 	"fmt"
+	"runtime"
 	"sort"
 	"testing"
 
@@ -357,11 +359,27 @@ func TestAccOuter(t *testing.T) {
 	out := vfd.NewOut(vfd.Env("VF_OUT", "trace.ndjson"))
 	defer out.Close()
 	defer blockchain.ResetInstance()
+	runs := vfd.EnvInt("VF_RUNS", 2)
+	savedW := types.MaxWorkers
 	for _, c := range cases {
 		sc := axParse(c)
 		rec := map[string]any{"n": vfd.I(c["n"]), "sc": c}
-		rec["outer"] = axRunOuter(sc)
-		rec["outer2"] = axRunOuter(sc) // a second run on a fresh identical prior state (cheap determinism guard)
+		// VF_RUNS runs on fresh identical prior states under varying GOMAXPROCS / MaxWorkers: "outer" is the first
+		// observation, "outer2" the first one that differs from it (if any), else the last one
+		first := axRunOuter(sc)
+		second := first
+		fb, _ := json.Marshal(first)
+		for i := 1; i < runs; i++ {
+			runtime.GOMAXPROCS(arProcs[i%3])
+			types.MaxWorkers = []int{1, 2, 8, 32}[(i/3)%4]
+			second = axRunOuter(sc)
+			if sb, _ := json.Marshal(second); string(sb) != string(fb) {
+				break
+			}
+		}
+		runtime.GOMAXPROCS(runtime.NumCPU())
+		types.MaxWorkers = savedW
+		rec["outer"], rec["outer2"], rec["runs"] = first, second, runs
 		if c["stf"] == true {
 			rec["stf"] = []any{axRunSTF(sc)}
 		} else {
